@@ -174,6 +174,14 @@ def r4(ctx, name, m):
                         okc = g.uncut_path(cev, nokey) is None
                         ctx.check('R4', 'trie:destroy-needs-no-key:%s' % g.name, okc, cev, 'a node structure is freed only when it carries no key',
                                   'a node that may still carry a key/value is freed without notification')
+                        # ... and no notifier: the test must be about the node that is freed (a test made before the variable moved
+                        # on to the parent says nothing about the parent)
+                        if g.name != 'trie_destroy' and av.get('k') == 'var':
+                            live = [a_ for (a_, _e) in g.guards_live(cev) if a_.op == '!=' and a_.rc == 0 and callee_of(unwrap(a_.l)) == 'qb_list_empty' and
+                                    any(field_is(x, 'notifier_head') and mentions_var(x, av['n']) for x in unwrap(a_.l).get('args', []))]
+                            ctx.check('R4', 'trie:destroy-needs-no-notifier:%s' % g.name, bool(live), cev,
+                                      'a node structure is freed only when no notifier is registered on it',
+                                      '%s frees a node without a (still valid) test that no notifier is registered on that very node: a placeholder node that carries the notifiers of a key or prefix without an entry is freed with them when the last entry below it goes - later insertions are not announced, notify_del says ENOENT' % g.name)
                 else:
                     ctx.viol('R4', 'trie:node-free-site', ev, 'trie node freed outside trie_destroy_node')
             else:
